@@ -124,7 +124,9 @@ func loadProgMode(o loadOpts, mode packages.LoadMode) (*Prog, error) {
 	}
 	// source functions of the module
 	for fn := range ssautil.AllFunctions(prog) {
-		if fn.Pkg == nil || fn.Synthetic != "" {
+		// instances of the module's own generic helpers (countIf[T], filter[T]) are source
+		// functions too: their bodies are the generic's body with the types filled in
+		if fn.Pkg == nil || (fn.Synthetic != "" && fn.Origin() == nil) {
 			continue
 		}
 		if _, ok := p.SPkgs[fn.Pkg.Pkg.Path()]; !ok {
